@@ -169,7 +169,9 @@ Record rsession := mk_rsession {
   r_ip : bytes;            (* xmitstat.sremoteip, 16 bytes *)
   r_rcpts : list bytes;    (* the recipient list before this recipient *)
   r_dns : list N;          (* answers of ask_dnsa() in call order *)
-  r_t0 : Z                 (* *t on entry: what the previous filter left there *)
+  r_t0 : Z;                (* *t on entry: what the previous filter left there *)
+  r_fromdomain : Z;        (* xmitstat.fromdomain: 0 ok, 1 no MX, 2 null MX, DNS_ERROR_TEMP, DNS_ERROR_PERM *)
+  r_mx : list bytes        (* xmitstat.frommx: the addresses (16 bytes each) of all list nodes in order; [] = NULL *)
 }.
 
 Record fout := mk_fout {
@@ -565,6 +567,85 @@ Definition cb_namebl_gen (early : bool) (s : rsession) (fs : fsys) : option fout
 Definition cb_namebl := cb_namebl_gen NAMEBL_BLOCKTYPE_ON_ENTRY.
 
 (* ------------------------------------------------------------------------------------------------ *)
+(** * fromdomain.c *)
+
+(** IN6_IS_ADDR_V4MAPPED and friends of <netinet/in.h> on the 16 bytes of an address *)
+Definition is_v4mapped (a : bytes) : bool :=
+  forallb (N.eqb 0) (firstn 10 a) && N.eqb (nth 10 a 0%N) 255 && N.eqb (nth 11 a 0%N) 255.
+Definition is_linklocal (a : bytes) : bool := N.eqb (nth 0 a 0%N) 254 && N.eqb (N.land (nth 1 a 0%N) 192) 128.
+Definition is_sitelocal (a : bytes) : bool := N.eqb (nth 0 a 0%N) 254 && N.eqb (N.land (nth 1 a 0%N) 192) 192.
+Definition is_unspecified (a : bytes) : bool := forallb (N.eqb 0) (firstn 16 a).
+Definition is_loopback (a : bytes) : bool := forallb (N.eqb 0) (firstn 15 a) && N.eqb (nth 15 a 0%N) 1.
+
+(** the [for] loops over reserved_netsv4[] / reserved_netsv6[]: does a table entry match?  [None] = UB in the matcher *)
+Fixpoint any_net (matchf : bytes -> bytes -> N -> Cres bool) (a : bytes) (nets : list (bytes * N)) : option bool :=
+  match nets with
+  | [] => Some false
+  | (n, len) :: rest => match matchf a n len with
+                        | Ok true => Some true
+                        | Ok false => any_net matchf a rest
+                        | _ => None
+                        end
+  end.
+
+Definition bit_set (u b : Z) : bool := negb (Z.eqb (Z.land u b) 0).
+
+(** flagtmp for one MX address *)
+Definition fd_addr_hit (u : Z) (a : bytes) : option bool :=
+  if is_v4mapped a then
+    match (if bit_set u FD_BIT_PRIVATE then any_net ip4_matchnet a FD_NETS4 else Some false) with
+    | None => None
+    | Some f1 => Some (f1 || (bit_set u FD_BIT_LOCALHOST && (N.eqb (nth 12 a 0%N) 0 || N.eqb (nth 12 a 0%N) 127)))
+    end
+  else
+    match (if bit_set u FD_BIT_PRIVATE then any_net ip6_matchnet a FD_NETS6 else Some false) with
+    | None => None
+    | Some f1 =>
+        let f2 := f1 || (bit_set u FD_BIT_PRIVATE && (is_linklocal a || is_sitelocal a)) in
+        Some (f2 || (bit_set u FD_BIT_LOCALHOST && (is_loopback a || is_unspecified a)))
+    end.
+
+(** FOREACH_STRUCT_IPS with "flaghit &= flagtmp; if (!flaghit) break;" *)
+Fixpoint fd_all_hit (u : Z) (mx : list bytes) : option bool :=
+  match mx with
+  | [] => Some true
+  | a :: rest => match fd_addr_hit u a with
+                 | None => None
+                 | Some false => Some false
+                 | Some true => fd_all_hit u rest
+                 end
+  end.
+
+Definition cb_fromdomain (s : rsession) (uc dc gc : list bytes) : option fout :=
+  match r_mailfrom s with
+  | [] => Some (plain s FPassed 0)
+  | _ =>
+      let st := getsettingglobal uc dc gc KEY_FROMDOMAIN in
+      let u := setting_value st in
+      let t := setting_type st in
+      let own m := Some (mk_fout FDeniedMsg t m (r_check2822 s) 0) in
+      if (u <=? 0)%Z then Some (plain s FPassed t) else
+      match r_mx s with
+      | [] =>
+          if bit_set u FD_BIT_DNS then
+            if Z.eqb (r_fromdomain s) DNS_ERROR_TEMP_Z then own REPLY_FD_TEMP
+            else if Z.eqb (r_fromdomain s) DNS_ERROR_PERM_Z then own REPLY_FD_PERM
+            else if Z.eqb (r_fromdomain s) 1 then own REPLY_FD_NOMX
+            else if Z.eqb (r_fromdomain s) 2 then own REPLY_FD_NULLMX
+            else Some (plain s FPassed t)
+          else Some (plain s FPassed t)
+      | mx =>
+          if bit_set u FD_BIT_LOCALHOST || bit_set u FD_BIT_PRIVATE then
+            match fd_all_hit u mx with
+            | None => None
+            | Some true => own REPLY_FD_UNROUTABLE
+            | Some false => Some (plain s FPassed t)
+            end
+          else Some (plain s FPassed t)
+      end
+  end.
+
+(* ------------------------------------------------------------------------------------------------ *)
 (** * One case of the rfilters engine *)
 
 Inductive rf_result :=
@@ -577,6 +658,7 @@ Definition ID_CHECK2822 : N := 3%N.
 Definition ID_DNSBL : N := 4%N.
 Definition ID_FORCEESMTP : N := 5%N.
 Definition ID_NAMEBL : N := 9%N.
+Definition ID_FROMDOMAIN : N := 6%N.
 Definition ID_HELO : N := 7%N.
 Definition ID_IPBL : N := 8%N.
 Definition ID_NOMAIL : N := 10%N.
@@ -633,14 +715,15 @@ Definition run_filter (id : N) (s : rsession) (fs : fsys) (uc dc gc : list bytes
   else if N.eqb id ID_NOMAIL then Some (cb_nomail s fs)
   else if N.eqb id ID_DNSBL then Some (cb_dnsbl s fs)
   else if N.eqb id ID_NAMEBL then Some (cb_namebl s fs)
+  else if N.eqb id ID_FROMDOMAIN then Some (cb_fromdomain s uc dc gc)
   else None.
 
-Definition rf_case (id : N) (misc mailfrom helo ip rcpts dns : bytes) (files : list bytes) : rf_result :=
+Definition rf_case (id : N) (misc mailfrom helo ip rcpts dns mx : bytes) (files : list bytes) : rf_result :=
   let m i := nth i misc 0%N in
   let userdir := N.testbit (m 0) 0 in
   if has_nul mailfrom || has_nul helo || has_nul rcpts || negb (Nat.eqb (length ip) 16)
      || match helo with [] => true | _ => false end || Nat.ltb 60 (length files)
-     || (N.ltb 4 (m 4) && negb (N.eqb (m 4) 234))
+     || (N.ltb 4 (m 4) && negb (N.eqb (m 4) 234)) || negb (Nat.eqb (length mx mod 16) 0)
   then RBadCase else
   match decode_files userdir files with
   | None => RBadCase
@@ -652,7 +735,10 @@ Definition rf_case (id : N) (misc mailfrom helo ip rcpts dns : bytes) (files : l
           | Some uc, Some dc =>
               let s := mk_rsession userdir (N.testbit (m 0) 1) (N.testbit (m 0) 2) (N.testbit (m 0) 3) (N.testbit (m 0) 4)
                                    (N.land (m 1) 7) (N.land (m 2) 3) mailfrom helo ip (split_lf rcpts []) dns
-                                   (if N.eqb (m 4) 234 then (-22)%Z else Z.of_N (m 4)) in
+                                   (if N.eqb (m 4) 234 then (-22)%Z else Z.of_N (m 4))
+                                   (if N.eqb (m 3) 254 then DNS_ERROR_TEMP_Z else if N.eqb (m 3) 253 then DNS_ERROR_PERM_Z
+                                    else Z.of_N (N.land (m 3) 3))
+                                   (chunks (length mx) 16 mx) in
               match run_filter id s fs uc dc gc with
               | None => RBadCase
               | Some None => RCrash
